@@ -114,6 +114,13 @@ Init == /\ exec \in {"md", "cram"}
               /\ keep = "unset" /\ strip = "unset" /\ stream \in {"stdout", "combined"}
               /\ \E p1 \in {<<"a">>, <<"a", "LF">>, <<>>, <<"a", "CR">>}, p2 \in {<<"a", "LF">>, <<"LF">>, <<>>}, c1 \in Codes, c2 \in {0, 255} :
                     tests = <<T(p1, <<>>, c1), T(p2, <<"a", "LF">>, c2)>>
+           \/ \* G: three test cases; the MIDDLE one writes several lines and leaves the last one unterminated (what the
+              \*    single-script executor has buffered when the next divider arrives must go to this test case only)
+              /\ keep = "unset" /\ strip = "unset" /\ stream \in {"stdout", "combined"}
+              /\ \E p1 \in {<<"a", "LF">>, <<"a">>},
+                    p2 \in {<<"a", "LF", "a">>, <<"a", "LF", "a", "LF", "a">>, <<"LF", "a">>, <<"a", "LF", "a", "CR">>, <<"a", "LF", "LF", "a">>},
+                    p3 \in {<<"a", "LF">>, <<"a">>, <<>>} :
+                    tests = <<T(p1, <<>>, 0), T(p2, <<>>, 0), T(p3, <<>>, 0)>>
 Next == UNCHANGED vars
 Spec == Init /\ [][Next]_vars
 
